@@ -14,7 +14,12 @@ PER_TYPE = ['gen_dec_%s' % k for k in sorted(build.MODEL_DEC)]
 KINDS = sorted(build.MODEL_DEC) + ['Hidden', 'SequencingRequired']
 ENCODERS = ['gen_enc_avp', 'gen_enc_ctrl', 'gen_enc_data', 'gen_flags_new'] + ['gen_wr_%s' % k for k in KINDS] + ['gen_len_%s' % k for k in KINDS]
 ALL = DECODERS + PER_TYPE + ENCODERS
-RELEVANT = {p: DECODERS + PER_TYPE for p in ('C01', 'C02', 'C05', 'C08', 'C15', 'C20')}
+from rs2v import vecbuild
+READER = ['gen_sr_%s' % x[0] for x in vecbuild.SR]
+WRITER = ['gen_vw_%s' % x[0] for x in vecbuild.VW]
+HIDING = ['gen_hide', 'gen_reveal']
+ALL = ALL + READER + WRITER + HIDING
+RELEVANT = {p: DECODERS + PER_TYPE + (READER if p in ('C01', 'C02', 'C05') else []) for p in ('C01', 'C02', 'C05', 'C08', 'C15', 'C20')}
 RELEVANT['C14'] = ['gen_flags_read', 'gen_msg_read', 'gen_try_read', 'gen_ctrl_read', 'gen_data_read']
 RELEVANT['C03'] = ALL
 RELEVANT['C10'] = ALL
@@ -29,6 +34,25 @@ RELEVANT['C17'] = ['gen_dec_%s' % k for k in ('FramingCapabilities', 'BearerCapa
 RELEVANT['C13'] = ['gen_decode_avp'] + PER_TYPE
 RELEVANT['C11'] = ['gen_decode_avp', 'gen_enc_avp'] + PER_TYPE + ['gen_wr_%s' % k for k in KINDS]
 RELEVANT['C12'] = ['gen_enc_avp'] + ['gen_wr_%s' % k for k in KINDS]
+for _p in ('C11', 'C12', 'C13'):
+    RELEVANT[_p] = RELEVANT[_p] + HIDING
+for _p in ('C06', 'C07', 'C09'):
+    RELEVANT[_p] = RELEVANT[_p] + WRITER
+RELEVANT['C18'] = READER + WRITER
+
+
+def _support_stamp():
+    """the tie files import Proofs/GenSupport.vo and Proofs/GenVec.vo: build them when absent; their mtimes key the caches"""
+    out = []
+    for f in ('GenSupport', 'GenVec'):
+        vo = os.path.join(lib.COQ, 'theories', 'Proofs', f + '.vo')
+        if not os.path.exists(vo):
+            try:
+                lib.coq_build('theories/Proofs/%s.vo' % f)
+            except Exception:
+                pass
+        out.append(str(os.path.getmtime(vo)) if os.path.exists(vo) else '0')
+    return '/'.join(out)
 
 
 def _coqc(path, qdir):
@@ -43,7 +67,7 @@ def check(repo, names, workdir):
     except Exception as e:   # the translator must never take a check down
         return {'translator': 'internal error: %s' % repr(e)[:200]}
     sup = os.path.join(lib.COQ, 'theories', 'Proofs', 'GenSupport.vo')
-    stamp = str(os.path.getmtime(sup)) if os.path.exists(sup) else '0'
+    stamp = _support_stamp()
     key = hashlib.sha1((json.dumps(defs, sort_keys=True) + json.dumps(ties, sort_keys=True) + json.dumps(fails, sort_keys=True) + stamp).encode()).hexdigest()[:20]
     cdir = os.path.join(lib.CACHE, 'srctie')
     os.makedirs(cdir, exist_ok=True)
@@ -66,7 +90,7 @@ def check(repo, names, workdir):
             def start(n, levels):
                 lvl, text = levels[0]
                 tp = os.path.join(workdir, 'Tie_%s.v' % n)
-                open(tp, 'w').write(build.HEADER + defs[n] + text)
+                open(tp, 'w').write(build.HEADERS.get(n, build.HEADER) + defs[n] + text)
                 return (n, lvl, tp, _coqc(tp, workdir))
             outs = {}
             while items or running:
@@ -130,8 +154,7 @@ def linked_check(repo, workdir):
         return {'status': 'translator: internal error %s' % repr(e)[:160]}
     if text is None:
         return {'status': 'not available: a decoder function could not be translated'}
-    sup = os.path.join(lib.COQ, 'theories', 'Proofs', 'GenSupport.vo')
-    stamp = str(os.path.getmtime(sup)) if os.path.exists(sup) else '0'
+    stamp = _support_stamp()
     key = hashlib.sha1((text + stamp).encode()).hexdigest()[:20]
     cdir = os.path.join(lib.CACHE, 'srctie')
     os.makedirs(cdir, exist_ok=True)
@@ -179,9 +202,66 @@ def linked_check(repo, workdir):
     return res
 
 
+def linked_vec_check(repo, workdir):
+    """-> status of the regenerated SliceReader as a ReaderImpl, the regenerated hide/reveal and the theorems transported to them"""
+    try:
+        defs, ties, fails = build.translate_all(repo)
+        text = vecbuild.linked_text(defs)
+    except Exception as e:
+        return {'status': 'translator: internal error %s' % repr(e)[:160]}
+    if text is None:
+        return {'status': 'not available: ' + '; '.join('%s: %s' % (k, v[:80]) for k, v in fails.items() if k in vecbuild.NAMES)[:300]}
+    key = hashlib.sha1((text + _support_stamp()).encode()).hexdigest()[:20]
+    cdir = os.path.join(lib.CACHE, 'srctie')
+    os.makedirs(cdir, exist_ok=True)
+    cp = os.path.join(cdir, 'linkedvec-' + key + '.json')
+    if os.path.exists(cp):
+        return json.load(open(cp))
+    os.makedirs(workdir, exist_ok=True)
+    p = os.path.join(workdir, 'LinkedVec.v')
+    open(p, 'w').write(text)
+    transient = ('inconsistent assumptions', 'Compiled library', 'Cannot load', 'bad version', 'No such file', 'Cannot find a physical path')
+
+    def once():
+        pr = _coqc(p, workdir)
+        try:
+            out, _ = pr.communicate(timeout=1200)
+        except subprocess.TimeoutExpired:
+            pr.kill()
+            out = 'timeout'
+        return pr, out
+    pr, out = once()
+    if pr.returncode != 0 and any(x in out for x in transient):
+        with lib.Lock('coq'):
+            pr, out = once()
+    if pr.returncode == 0 and 'Axioms:' not in out:
+        res = {'status': 'holds', 'closed_under_global_context': out.count('Closed under the global context'),
+               'theorems': ['regenerated_reader_is_list_reader : forall A (p : prog A) l, grun GenSliceReader p l = run p l',
+                            'G_decode_on_regenerated_reader', 'G_C02_on_regenerated_reader',
+                            'regenerated_hide_is_model : forall a secret rv lp ap, gen_hide a secret rv lp ap = m_hide md5 a secret rv lp ap',
+                            'regenerated_reveal_is_model', 'G_C11_hide_reveal', 'G_C12_hide_is_rfc', 'G_C12_reveal_is_rfc', 'G_C13_reveal_total'],
+               'meaning': 'SliceReader (src/common/slice_reader.rs) regenerated from the current source is, as an implementation of the '
+                          'Reader trait, the list reader every decoder theorem is stated on; AVP::hide / AVP::reveal regenerated from '
+                          'src/message/avp.rs equal the Model on every input, and C11, C12, C13 are re-proved of the regenerated functions'}
+        json.dump(res, open(cp, 'w'))
+    elif any(x in out for x in transient) or out == 'timeout':
+        res = {'status': 'not checked (coqc could not run)'}
+    else:
+        res = {'status': 'does not hold for the current source', 'coqc': ' '.join(out.split())[-300:]}
+        json.dump(res, open(cp, 'w'))
+    for f in os.listdir(workdir):
+        if f.startswith(('LinkedVec.', '.LinkedVec')):
+            try:
+                os.remove(os.path.join(workdir, f))
+            except OSError:
+                pass
+    return res
+
+
 if __name__ == '__main__':
     import time
     t0 = time.time()
     r = check(sys.argv[1] if len(sys.argv) > 1 else lib.REPO, ALL, os.path.join(lib.CACHE, 'work', 'srctie2-%d' % os.getpid()))
     print(json.dumps(r, indent=1), round(time.time() - t0, 1))
     print(json.dumps(linked_check(sys.argv[1] if len(sys.argv) > 1 else lib.REPO, os.path.join(lib.CACHE, 'work', 'linked-%d' % os.getpid())), indent=1), round(time.time() - t0, 1))
+    print(json.dumps(linked_vec_check(sys.argv[1] if len(sys.argv) > 1 else lib.REPO, os.path.join(lib.CACHE, 'work', 'linkedvec-%d' % os.getpid())), indent=1), round(time.time() - t0, 1))
